@@ -92,16 +92,17 @@ def _impersonate_options(
 
         if option == TCPOption.MSS:
             # MSS might have a maximum size because of WindowType.MSS
-            max_mss = (2**16) // (
-                signature.window.size if signature.window.type == WindowType.MSS else 1
-            )
+            is_mss_window = signature.window.type == WindowType.MSS
+            max_mss = (2**16 - 1) // (signature.window.size if is_mss_window else 1)
+            # A window multiplier is only computed for MSS >= 100
+            min_mss = 100 if is_mss_window else 0
 
             if signature.options.mss == WILDCARD:
-                if mss_hint and 0 <= mss_hint <= max_mss:
+                if mss_hint is not None and min_mss <= mss_hint <= max_mss:
                     impersonated_option = ("MSS", mss_hint)
                 else:
                     # invalid hint, generate new value
-                    impersonated_option = ("MSS", random.randrange(100, max_mss))
+                    impersonated_option = ("MSS", random.randrange(100, max_mss + 1))
             else:
                 impersonated_option = ("MSS", signature.options.mss)
 
